@@ -16,12 +16,12 @@ CLAIMED = {
   "note": "The enumeration kernels use a recursive helper over T** and are outside the translator; the closed-form count is not proved in this round. Bounded stand-ins are exploration, not proof.",
   "technique": "contract-based deductive verification of the length kernel's safety plus bounded exhaustive stand-ins of the compiled combinations kernels against itertools"},
  "C18": {
-  "text": "Only the partition arithmetic is under contract: IrregularlyPartitionedArray::partitionid_index_at maps every global position to the first partition containing it and the right local index (sentinels for negative / past-the-end positions), start/stop, PartitionedArray::getitem_at wraps and bounds-checks exactly like Python, and the range regularisation it shares with slicing (awkward_regularize_rangeslice == CPython slice adjustment). VirtualArray caches/generators, getitem_range across partitions, repartition and partition.py are NOT covered.",
+  "text": "Under deductive contract: the partition arithmetic only -- IrregularlyPartitionedArray::partitionid_index_at maps every global position to the first partition containing it and the right local index (sentinels for negative / past-the-end positions), start/stop, PartitionedArray::getitem_at wraps and bounds-checks exactly like Python, and the range regularisation it shares with slicing (awkward_regularize_rangeslice == CPython slice adjustment). VirtualArray caches/generators, getitem_range across partitions and repartition are covered by the bounded Engine N families only; partition.py and the Python-side generators/caches are NOT covered.",
   "ref": "DESIGN.md section 5 (C18)",
   "note": "Trusted: stops_ non-decreasing and non-negative with one entry per partition (class invariant, assumed); callee contracts of length()/getitem_at_nowrap assumed.",
   "technique": "contract-based deductive verification of the extracted partition methods (VC generator over the clang AST, z3/cvc5)"},
  "C14": {
-  "text": "Only the buffer layer of the builders is under contract: GrowableBuffer<int64_t>::append/set_length/set_reserved/clear/getitem_at_nowrap extracted from the clang AST and proved for all states: 0 <= length <= reserved always, append stores the datum at the old length inside the (possibly reallocated) buffer and leaves every earlier element unchanged whether or not it reallocates (the snapshot-immutability clause at the only place data can move), for every ArrayBuilderOptions (initial, resize) value. The builder tree (type promotion, option/union/record unification), from_iter and LayoutBuilder are NOT covered.",
+  "text": "Under deductive contract: the buffer layer of the builders only -- GrowableBuffer<int64_t>::append/set_length/set_reserved/clear/getitem_at_nowrap extracted from the clang AST and proved for all states: 0 <= length <= reserved always, append stores the datum at the old length inside the (possibly reallocated) buffer and leaves every earlier element unchanged whether or not it reallocates (the snapshot-immutability clause at the only place data can move), for every ArrayBuilderOptions (initial, resize) value. The builder tree (type promotion, option/union/record unification) is covered by the bounded Engine N families only; from_iter's Python side and LayoutBuilder are NOT covered.",
   "ref": "DESIGN.md section 5 (C14)",
   "note": "Trusted: set_reserved's memcpy/malloc (its contract is assumed at call sites), float growth factor abstract; builder tree rewriting not covered.",
   "technique": "contract-based deductive verification of the extracted GrowableBuffer methods (VC generator over the clang AST, z3/cvc5)"},
@@ -36,7 +36,7 @@ CLAIMED = {
   "note": 'Trusted: clang AST, z3/cvc5, encoding assumptions listed in the evidence; preconditions written in contracts/*.py; the C++ class methods and Python functions that compose these kernels are glue outside the contracts (a change there is invisible to this check). Bounded stand-ins are never counted as proved.',
   "technique": 'contract-based deductive verification of the real kernel code (VC generator over the clang AST, sidecar contracts, lockstep equivalence with the YAML definitions; z3/cvc5; replay on the compiled kernels)'},
  "C03": {
-  "text": "Leaf reducers and the reduce_next helper kernels: memory-safe for parents in [0,outlength), equal to their definitions (lockstep) in all 100+ specializations; arg-reducers keep 'toptr[p] is -1 or a position of group p' as a proved invariant; local nextparents has a full functional contract; the non-local pipeline (preparenext/outstartsstops) is covered by safety and equivalence only, not by a functional 'transpose' contract.",
+  "text": "Leaf reducers and the reduce_next helper kernels: memory-safe for parents in [0,outlength), equal to their definitions (lockstep) in all 100+ specializations; arg-reducers keep 'toptr[p] is -1 or a position of group p' as a proved invariant; local nextparents has a full functional contract; awkward_ListOffsetArray_reduce_nonlocal_outstartsstops_64 (rewritten by a fix: commit) has a full functional contract (output list k is segment k of lendistincts/outlength slots cut after its last slot in use; every write inside outlength); preparenext is covered by safety only.",
   "ref": 'DESIGN.md section 5 (C03)',
   "note": 'Trusted: clang AST, z3/cvc5, encoding assumptions listed in the evidence; preconditions written in contracts/*.py; the C++ class methods and Python functions that compose these kernels are glue outside the contracts (a change there is invisible to this check). Bounded stand-ins are never counted as proved.',
   "technique": 'contract-based deductive verification of the real kernel code (VC generator over the clang AST, sidecar contracts, lockstep equivalence with the YAML definitions; z3/cvc5; replay on the compiled kernels)'},
@@ -94,7 +94,29 @@ ALL = ["C%02d" % i for i in range(1, 21)]
 G_SENTENCE = (" Call sites (Engine G): the libawkward C++ methods that call these kernels are executed symbolically from their clang AST, with path conditions, and every such call is checked against the kernel's contract (each buffer holds at least the extent the contract requires for the actual scalar arguments, scalar preconditions hold; count kernels and fill kernels are tied by a ghost count over the same input buffer); only the obligations that prove on the unchanged tree are counted, the others are listed as undecided call sites in the evidence.")
 
 
+N_FAMILIES = {
+ "C01": "getitem_basic (integers, ranges with any bounds/step, ellipsis, newaxis, fields), getitem_array (one or two adjacent integer arrays of one or two dimensions, boolean arrays, index arrays with missing values), getitem_jagged (jagged integer/boolean indexes with missing entries), getitem_numpy (rectilinear arrays against NumPy's own indexing as oracle), carry_range (carry, x[a:b], x[i])",
+ "C02": "tolist (every physical encoding -- ListArray/ListOffsetArray/RegularArray in 32/U32/64 bit, shifted or shuffled storage with unreachable elements, IndexedArray views, all five option encodings with arbitrary padding bits and negative indexes, strided/offset/reversed/n-dimensional NumpyArray, records, unions -- reads back as the encoded value), carry_range, convert (toListOffsetArray64, toRegularArray, option-encoding conversions, simplify, project, bytemask, deep_copy, contiguous); every other family also draws its inputs from these encodings and compares with a layout-independent reference",
+ "C03": "reduce_ragged (all ten reducers, every axis written positively or negatively, mask_identity, keepdims, missing leaves and missing lists, every encoding) and reduce_rect (rectilinear arrays incl. size-0 dimensions and n-dimensional NumpyArray)",
+ "C05": "num, flatten (incl. unions of list types), localindex at every axis",
+ "C06": "sort and argsort along the innermost axis (both directions, stable or not, NaN first, missing leaves last, positions realise the order, ties in original order when stable)",
+ "C07": "combinations (n 1..4, with/without replacement, every axis, tuples and order equal to itertools)",
+ "C08": "concat (ak.concatenate axis=0 composed from mergeable/mergemany/merge_as_union/simplify as structure.py does: same types, numerically different leaf types with the promoted dtype checked against numpy.result_type for two arrays, different types giving unions)",
+ "C09": "rpad (pad_none with/without clip at every axis), fillna (fill_none at the top option level), convert (conversions among the option encodings, project, bytemask = is_none)",
+ "C11": "valid_accept (layouts obeying every documented rule pass validityerror), valid_reject (one documented rule broken at one node: reported, or refused by the constructor) and, in EVERY family, the layout returned for a valid input passes validityerror",
+ "C12": "every family: the call neither crashes nor hangs (each case runs in a forked child with a 20 s alarm), the input layouts are byte-for-byte unchanged afterwards and the result reads the same after its inputs have been dropped; invalid_nocrash (to_list / deep_copy / depth queries on layouts with one broken rule never crash); thorough tier: the same under AddressSanitizer",
+ "C14": "builder (random well-nested values through the real ArrayBuilder incl. records with differing fields, tuples, strings, None, mixed numbers: final to_list equals the appended values up to the documented unification, length, validity; snapshots taken in between equal the values appended so far and read the same at the end, for initial buffer sizes 1, 2, 8, 1024) and builder_malformed (unbalanced end, field/index outside record/tuple raise)",
+ "C18": "virtual (the operations of the other families through a real VirtualArray with a counting generator and no cache / an unbounded cache / a cache that evicts after k hits, optionally with a first generation that fails), virtual_enforce (declared length+form: length/depth/form queries never invoke the generator; a too-short or wrong-form generation is refused and leaves neither an inferred form nor a cached array), partitioned (IrregularlyPartitionedArray getitem_at, getitem_range with any start/stop/step, repartition incl. empty partitions, against the concatenated list)",
+}
+
+N_SENTENCE = (" BOUNDED, never counted as proved (Engine N): run-time contracts on the REAL layout classes -- libawkward and the kernels are compiled from the working tree, linked with /verif/native/driver.cpp (rapidjson, an empty submodule here, replaced by a stand-in that is only compiled, never used for JSON) and each postcondition, taken from the property text over the array's nested-list value, is checked on %d (quick) / %d (thorough) seeded random cases per family (lists of at most 4 elements, depth at most 3): %s. Inputs that hit a recorded known finding are not generated; each recorded input is replayed and reported as KNOWN-FINDING while it still fails.")
+
+
 def main():
+    for _pid, fams in N_FAMILIES.items():
+        if _pid in CLAIMED and "Engine N" not in CLAIMED[_pid]["text"]:
+            CLAIMED[_pid]["text"] += N_SENTENCE % (1200, 20000, fams)
+            CLAIMED[_pid]["technique"] += "; plus bounded run-time contract checking of the real compiled layout classes (labelled bounded)"
     for _pid in ("C01", "C02", "C03", "C04", "C05", "C07", "C08", "C09", "C11", "C12"):
         if _pid in CLAIMED and "Engine G" not in CLAIMED[_pid]["text"].split("Call sites (Engine G)")[0][-1:] and "Call sites (Engine G)" not in CLAIMED[_pid]["text"]:
             CLAIMED[_pid]["text"] += G_SENTENCE
@@ -123,7 +145,7 @@ def main():
                   "baseline_off_cmd": BASELINE, "source_commits": [], "add_only": True},
         "engines": [
             {"name": "akv", "path": "akv", "serves_properties": sorted(CLAIMED),
-             "kind_free_text": "self-written VC generator over the clang JSON AST of the real C/C++ functions (kernels, small methods) with sidecar contracts; z3 then cvc5; counterexamples replayed on the freshly compiled kernels through ctypes"},
+             "kind_free_text": "self-written VC generator over the clang JSON AST of the real C/C++ functions (kernels, small methods, libawkward call sites) with sidecar contracts; z3 then cvc5; counterexamples replayed on the freshly compiled kernels through ctypes; Engine N: bounded run-time contract checking of the real compiled layout classes through /verif/native/driver.cpp (never counted as proved)"},
         ],
         "checks": checks,
         "not_applicable": na,
